@@ -93,6 +93,7 @@ class RefPeer:
         self.version = version
         self.transport = None
         self.dec = R.DirDecoder('in')
+        self.dec.passive = False
         self.enc = R.DirEncoder()
         self.queue = asyncio.Queue()
         self.closed = False
@@ -298,6 +299,12 @@ class RefPeer:
         if self.authed:
             self.enc.next_comp.activate()
             self.dec.next_comp.activate()
+        try:
+            self.dec.on_packet = self._on_item
+            self.dec.resume()
+        except R.RefError as exc:
+            self.violations.append(str(exc))
+            self.queue.put_nowait(('error', str(exc)))
 
     # ---- client side of each family
 
